@@ -245,6 +245,11 @@ def oracle_flags(cases, impl):
             if k in ("N", "F") and nexts > 0 and d.get("run") != "T":
                 out.append(fail("C09", info, line, "is_running is %s after an action was requested (line %d)" % (d.get("run"), i), "is_running"))
                 break
+            if k == "F" and d.get("x") != ("T" if done else "F"):
+                # a finalize call emits nothing: is_exhausted still says whether the final action has been emitted
+                out.append(fail("C09", info, line, "is_exhausted is %s right after a finalize call (line %d) although the final action has%s been emitted"
+                                % (d.get("x"), i, "" if done else " not"), "is_exhausted_finalize"))
+                break
             if k != "N":
                 continue
             nexts += 1
